@@ -108,9 +108,19 @@ def opInventory (j : Json) : Except String Json := do
     return Json.mkObj [("model", Json.mkObj [("config", Json.mkObj [("err", Json.arr #["config", "regex"])])])]
   let dn := walkEntries true cfg.composeNodeName "<ROOT>/nodes".toList (nodesL.map (·.entry)) []
   let dc := walkEntries false true "<ROOT>/classes".toList (classesL.map (·.entry)) []
+  -- for a collision, also list every file deriving the colliding name (which pair the
+  -- implementation reports depends on directory iteration order)
+  let colliders (isNode compose : Bool) (root : Str) (ls : List Listed) (_e : Err) : Json :=
+    let derived := ls.filterMap fun l => (deriveEntity isNode compose l.entry).map fun p => (p.1, pathText root l.entry.rel)
+    let names := (derived.map (·.1)).eraseDups
+    Json.mkObj (names.filterMap fun n =>
+      let fs := (derived.filter (·.1 == n)).map (·.2)
+      if fs.length ≥ 2 then some (String.ofList n, strListToJson fs) else none)
   match dn, dc with
-  | .error e, _ => pure (Json.mkObj [("model", Json.mkObj [("discover", Json.mkObj [("err", errToJson e)])])])
-  | _, .error e => pure (Json.mkObj [("model", Json.mkObj [("discover", Json.mkObj [("err", errToJson e)])])])
+  | .error e, _ => pure (Json.mkObj [("model", Json.mkObj [("discover", Json.mkObj [("err", errToJson e)]),
+      ("colliders", colliders true cfg.composeNodeName "<ROOT>/nodes".toList nodesL e)])])
+  | _, .error e => pure (Json.mkObj [("model", Json.mkObj [("discover", Json.mkObj [("err", errToJson e)]),
+      ("colliders", colliders false true "<ROOT>/classes".toList classesL e)])])
   | .ok ns, .ok cs =>
     let inv : Inv := { classes := attach classesL cs, nodes := attach nodesL ns, cfg := cfg }
     let names := ns.map (·.1)
